@@ -167,6 +167,56 @@ func cmdCheck(args []string) {
 		}
 	}
 	res := verifyFuncs(p, keys, runOpts{repo: *repo, workdir: wd, timeout: timeout, all: all, maxPaths: *maxPaths, lemmas: lemmas})
+	// Unmasking: a mid-path obligation is assumed for the rest of its path once it has
+	// been generated; if it fails, what follows it on that path was checked under a false
+	// assumption. Re-run the affected functions without assuming the failed ones and add
+	// whatever fails now (at most two rounds).
+	for round := 0; round < 2; round++ {
+		var again []string
+		for _, fr := range res {
+			if p.Funcs[fr.Fn] == nil {
+				continue
+			}
+			for _, ob := range fr.Obls {
+				if ob.Cover || ob.Result.Status == "unsat" || ob.Result.Status == "skipped" || ob.Result.Status == "" {
+					continue
+				}
+				if unmaskNames[fr.Fn] == nil {
+					unmaskNames[fr.Fn] = map[string]bool{}
+				}
+				if !unmaskNames[fr.Fn][ob.Name] {
+					unmaskNames[fr.Fn][ob.Name] = true
+					if len(again) == 0 || again[len(again)-1] != fr.Fn {
+						again = append(again, fr.Fn)
+					}
+				}
+			}
+		}
+		if len(again) == 0 {
+			break
+		}
+		res2 := verifyFuncs(p, again, runOpts{repo: *repo, workdir: wd, timeout: timeout, all: all, maxPaths: *maxPaths})
+		for _, fr2 := range res2 {
+			for _, fr := range res {
+				if fr.Fn != fr2.Fn {
+					continue
+				}
+				had := map[string]bool{}
+				for _, ob := range fr.Obls {
+					if ob.Result.Status != "unsat" {
+						had[ob.Name+"|"+ob.Path] = true
+					}
+				}
+				for _, ob := range fr2.Obls {
+					if ob.Cover || ob.Result.Status == "unsat" || ob.Result.Status == "skipped" || had[ob.Name+"|"+ob.Path] {
+						continue
+					}
+					ob.Text += " [hidden behind an earlier failed obligation of the same path]"
+					fr.Obls = append(fr.Obls, ob)
+				}
+			}
+		}
+	}
 
 	// raw SMT lemma files (string theory etc.), tagged in their first line: "; tags: C10"
 	if files, _ := filepath.Glob(filepath.Join(*verif, "contracts", "lemmas", "*.smt2")); len(files) > 0 {
